@@ -95,7 +95,7 @@ class Assembly:
     def name_natural_key(obj):
         return tuple(
             (Assembly.NEMATODE_CHR_INT.get(x) or int(x)) if i % 2 else x
-            for i, x in enumerate(re.split(r"(I+V?|\d+)", obj.name))
+            for i, x in enumerate(re.split(r"(IV|I{1,3}|\d+)", obj.name))
         )
 
     def fragment_junction_set(self):
